@@ -40,6 +40,8 @@ def build():
         fs.append(('column', col, list(range(n)), []))
         fs.append(('whole-column', 'C!A:A', list(range(MAXN)), []))  # rows n+1..5 are blank
         fs.append(('quoted-sheet', "'O t'!A1:A%d" % n, list(range(n)), []))
+        # a sheet whose used range ends in row 1: the cells of the area below it exist only as overrides
+        fs.append(('short-sheet', 'U!A1:A%d' % n, list(range(n)), []))
         if n == 4:
             fs.append(('rectangle', 'Q!A1:B2', [0, 1, 2, 3], []))
         for k in range(1, n):
@@ -64,13 +66,14 @@ def build():
                 cells[f'F{r}'] = f'=COUNTBLANK({args})'
                 meta[n].append((f'F{r}', 'COUNTBLANK', name, idx, scalars))
             r += 1
-    sheets = [('S', cells), ('R', {'F2': 999}), ('C', {'B5': 999}), ('Q', {'C3': 999}), ('O t', {'B5': 999})]
+    sheets = [('S', cells), ('R', {'F2': 999}), ('C', {'B5': 999}), ('Q', {'C3': 999}), ('O t', {'B5': 999}), ('U', {'D1': 999})]
     return sheets, meta
 
 
 SCAFFOLD, META = build()
 POS = {  # sheet -> list of addresses in vector order
     'R': [f'{c}1' for c in RCOLS], 'C': [f'A{i}' for i in range(1, 6)], 'O t': [f'A{i}' for i in range(1, 6)],
+    'U': [f'A{i}' for i in range(1, 6)],
     'Q': ['A1', 'B1', 'A2', 'B2'],
 }
 
@@ -145,7 +148,7 @@ def judge(vec, entries, outs, src, stats, i, vio):
         base = by.get((fn, 'column'))
         if base is None or base[0] != 'VALUE':
             continue
-        for form in [f'split{k}+{n - k}' for k in range(1, n)] + ['singles', 'row', 'whole-column', 'row+column-halves']:
+        for form in [f'split{k}+{n - k}' for k in range(1, n)] + ['singles', 'row', 'whole-column', 'row+column-halves', 'short-sheet']:
             o = by.get((fn, form))
             if o is None:
                 continue
